@@ -381,6 +381,8 @@ package bigbuff
 //@   # established by NewChanPubSub: pongC has its own private mutex (sync.NewCond(new(sync.Mutex)))
 //@   objinv factory : x.broken != nil ==> x.pongC != nil && condlock(x.pongC) != x.sendMu && condlock(x.pongC) != x.sendingMu && condlock(x.pongC) != x.ping.mutex
 //@   inv pongC pongs : x.pongN >= 0
+//@   # Send waits for pongN == 0: whoever makes it 0 must broadcast before releasing (no lost wake-up of the sender)
+//@   notify-when pongC [C06,C07] drained : x.pongN == 0
 
 // ---------------------------------------------------------------------------------------------------
 // C01/C02/C03/C05/C12 — Buffer and its consumers (buffer.go, consumer.go, bigbuff.go).
@@ -896,6 +898,7 @@ package bigbuff
 //@   requires factory : x != nil
 //@   loop 0 invariant mon : inv(x.pongC) && heldW(x.pongC)
 //@   ensures locked : true
+//@   at-call (*sync.Cond).Broadcast#0 zero : x.pongN == 0 && heldW(x.pongC)
 
 //@ func (*ChanPubSub).Send
 //@   props C06 C07
